@@ -967,6 +967,25 @@ def inplace_ops_on_threads_and_manager_inputs(L, rec, rng):
             mon.set_local_events(TOOL, c, 0)
         mon.free_tool_id(TOOL)
         rec.observe("inplace_injected_yields", inj[0])
+    # ---- releasing a stack whose top is None (a frame without an object): everything below goes as well
+    for how in ("release_local", "manager.cleanup", "__release_local__"):
+        for frames in (["frame", None], ["a", "b", None], [None], ["x", None, None], [0, "", None]):
+            stk3 = L.LocalStack()
+            for fr in frames:
+                stk3.push(fr)
+            if how == "release_local":
+                L.release_local(stk3)
+            elif how == "manager.cleanup":
+                L.LocalManager([stk3]).cleanup()
+            else:
+                stk3.__release_local__()
+            left = [stk3.pop() for _ in range(len(frames) + 1)]
+            rec.case()
+            rec.nontrivial(("release-none-on-top", how, repr(frames)))
+            rec.observe("stacks_released_with_none_on_top")
+            if any(x is not None for x in left):
+                rec.violation("C18/LEAK-request-data-survives-cleanup", f"a stack holding {frames!r} was released through {how}; popping afterwards still yields {left!r}", {"scenario": "release-none-on-top", "how": how, "frames": repr(frames)}, monitor="per-thread-model")
+                break
     # ---- manager inputs
     for shape in ("list", "tuple", "generator", "iterator", "single", "map"):
         ns2, stk2 = L.Local(), L.LocalStack()
